@@ -2050,6 +2050,18 @@ let is_quiescent o =
 let retained_full o =
   N.leb mAX_RETAINED (glen o.ob_ret)
 
+(** val is_publish_entry : bytes -> rentry -> bool **)
+
+let is_publish_entry buf e =
+  match dropN e.re_off buf with
+  | [] -> false
+  | b :: _ -> N.eqb (N.div b (Npos (XO (XO (XO (XO XH)))))) (Npos (XI XH))
+
+(** val unresolved_publishes : outbound -> n **)
+
+let unresolved_publishes o =
+  N.add (glen (filter (is_publish_entry o.ob_buf) o.ob_ret)) (glen o.ob_rel)
+
 (** val used_after_compact : outbound -> n **)
 
 let used_after_compact o =
@@ -2143,23 +2155,21 @@ let queue_release o pid rc =
          (app o.ob_rel ({ le_pid = pid; le_rc = rc; le_st = (SWrite
            N0) } :: [])) }
 
-(** val swap_remove_rel : n -> lentry list -> lentry list option **)
+(** val remove_first_rel : n -> lentry list -> lentry list option **)
 
-let rec swap_remove_rel pid = function
+let rec remove_first_rel pid = function
 | [] -> None
 | e :: t ->
   if N.eqb e.le_pid pid
-  then (match rev t with
-        | [] -> Some []
-        | lst :: rinit -> Some (lst :: (rev rinit)))
-  else (match swap_remove_rel pid t with
+  then Some t
+  else (match remove_first_rel pid t with
         | Some t' -> Some (e :: t')
         | None -> None)
 
 (** val ack_release : outbound -> n -> outbound * bool **)
 
 let ack_release o pid =
-  match swap_remove_rel pid o.ob_rel with
+  match remove_first_rel pid o.ob_rel with
   | Some es ->
     ({ ob_buf = o.ob_buf; ob_used = o.ob_used; ob_ctl = o.ob_ctl; ob_ret =
       o.ob_ret; ob_rel = es }, true)
@@ -2538,19 +2548,44 @@ let data_reset s =
       (XO (XO (XO (XO (XO (XO XH)))))))))))))))))))))))))))))))))); s_sp =
     false; s_srv = []; s_rt = s.s_rt }
 
+(** val pid_succ : n -> n **)
+
+let pid_succ id =
+  if N.eqb id (Npos (XI (XI (XI (XI (XI (XI (XI (XI (XI (XI (XI (XI (XI (XI
+       (XI XH))))))))))))))))
+  then Npos XH
+  else N.add id (Npos XH)
+
+(** val set_pid : session -> n -> session **)
+
+let set_pid s p =
+  { s_cfg = s.s_cfg; s_client_id = s.s_client_id; s_reader = s.s_reader;
+    s_ob = s.s_ob; s_pid = p; s_gen = s.s_gen; s_sp = s.s_sp; s_srv =
+    s.s_srv; s_rt = s.s_rt }
+
+(** val pid_in_use : outbound -> n -> bool **)
+
+let pid_in_use o id =
+  (||) (has_retained o id) (has_pending_release o id)
+
+(** val next_packet_id_go : nat -> outbound -> n -> n * n **)
+
+let rec next_packet_id_go fuel o cur =
+  match fuel with
+  | O -> (cur, N0)
+  | S f ->
+    if pid_in_use o cur
+    then next_packet_id_go f o (pid_succ cur)
+    else ((pid_succ cur), cur)
+
 (** val next_packet_id : session -> session * n **)
 
 let next_packet_id s =
-  let id = s.s_pid in
-  let nxt =
-    if N.eqb id (Npos (XI (XI (XI (XI (XI (XI (XI (XI (XI (XI (XI (XI (XI (XI
-         (XI XH))))))))))))))))
-    then Npos XH
-    else N.add id (Npos XH)
+  let (nxt, id) =
+    next_packet_id_go (S (S (S (S (S (S (S (S (S (S (S (S (S (S (S (S (S
+      O))))))))))))))))) s.s_ob s.s_pid
   in
-  ({ s_cfg = s.s_cfg; s_client_id = s.s_client_id; s_reader = s.s_reader;
-  s_ob = s.s_ob; s_pid = nxt; s_gen = s.s_gen; s_sp = s.s_sp; s_srv =
-  s.s_srv; s_rt = s.s_rt }, id)
+  ((set_pid s nxt), id)
 
 (** val sess_handle_disconnect : session -> session **)
 
@@ -2684,10 +2719,10 @@ let handle_packet s = function
 | RPubRec (pid, rc) ->
   let (o, found) = ack_packet s.s_ob pid in
   if found
-  then let s1 = set_rt (set_ob s o) (quota_inc s.s_rt) in
-       if negb (rc_success rc)
-       then (s1, (HErr (ERejected rc)))
-       else (match check_pubrel_size s1.s_rt.rt_mps pid N0 with
+  then if negb (rc_success rc)
+       then ((set_rt (set_ob s o) (quota_inc s.s_rt)), (HErr (ERejected rc)))
+       else let s1 = set_ob s o in
+            (match check_pubrel_size s1.s_rt.rt_mps pid N0 with
              | Some e -> (s1, (HErr e))
              | None ->
                (match queue_release s1.s_ob pid N0 with
@@ -2710,9 +2745,10 @@ let handle_packet s = function
   let (o, found) = ack_release s.s_ob pid in
   if negb found
   then (s, (HOk false))
-  else if rc_success rc
-       then ((set_ob s o), (HOk false))
-       else ((set_ob s o), (HErr (ERejected rc)))
+  else let s1 = set_rt (set_ob s o) (quota_inc s.s_rt) in
+       if rc_success rc
+       then (s1, (HOk false))
+       else (s1, (HErr (ERejected rc)))
 | RSubAck (pid, _, codes) ->
   let (o, found) = ack_packet s.s_ob pid in
   if negb found
@@ -2735,10 +2771,8 @@ let handle_packet s = function
 
 let connect_request s =
   { cq_keepalive =
-    (N.modulo
-      (N.div s.s_rt.rt_ka_ms (Npos (XO (XO (XO (XI (XO (XI (XI (XI (XI
-        XH))))))))))) (Npos (XO (XO (XO (XO (XO (XO (XO (XO (XO (XO (XO (XO
-      (XO (XO (XO (XO XH)))))))))))))))))); cq_props =
+    (N.modulo s.s_cfg.cf_keepalive_s (Npos (XO (XO (XO (XO (XO (XO (XO (XO
+      (XO (XO (XO (XO (XO (XO (XO (XO XH)))))))))))))))))); cq_props =
     ((mkprop KMaximumPacketSize
        (N.modulo s.s_reader.rcap (Npos (XO (XO (XO (XO (XO (XO (XO (XO (XO
          (XO (XO (XO (XO (XO (XO (XO (XO (XO (XO (XO (XO (XO (XO (XO (XO (XO
@@ -2809,19 +2843,20 @@ let connack_process s p now =
      | RConnAck (sp, rc, props) ->
        if negb (rc_success rc)
        then (s, (CAErr ((ERejected rc), false)))
-       else let s1 = if sp then s else data_reset s in
-            let local_quota = N.min mAX_RETAINED mAX_PENDING_RELEASE in
+       else let local_quota = N.min mAX_RETAINED mAX_PENDING_RELEASE in
             let a0 = { ca_quota = local_quota; ca_maxquota = local_quota;
-              ca_maxqos = None; ca_mps = None; ca_ka_ms = s1.s_rt.rt_ka_ms;
-              ca_cid = None }
+              ca_maxqos = None; ca_mps = None; ca_ka_ms =
+              (N.mul s.s_cfg.cf_keepalive_s (Npos (XO (XO (XO (XI (XO (XI (XI
+                (XI (XI XH))))))))))); ca_cid = None }
             in
             (match connack_props (props_iter_encoded props) local_quota a0 with
              | Some a ->
+               let s1 = if sp then s else data_reset s in
                let r0 = { rt_resumed = sp; rt_ka_ms = a.ca_ka_ms; rt_quota =
-                 a.ca_quota; rt_maxquota = a.ca_maxquota; rt_mps = a.ca_mps;
-                 rt_maxqos = a.ca_maxqos; rt_next_ping =
-                 s1.s_rt.rt_next_ping; rt_ping_timeout =
-                 s1.s_rt.rt_ping_timeout }
+                 (N.sub a.ca_quota (unresolved_publishes s1.s_ob));
+                 rt_maxquota = a.ca_maxquota; rt_mps = a.ca_mps; rt_maxqos =
+                 a.ca_maxqos; rt_next_ping = s1.s_rt.rt_next_ping;
+                 rt_ping_timeout = s1.s_rt.rt_ping_timeout }
                in
                let r2 =
                  rt_with_timers (note_outbound_activity r0 now)
@@ -2835,7 +2870,7 @@ let connack_process s p now =
                  s_srv = s1.s_srv; s_rt = r2 }
                in
                (s2, (CAOk sp))
-             | None -> (s1, (CAErr (EInvalidPacket, true))))
+             | None -> (s, (CAErr (EInvalidPacket, true))))
      | RDisconnect (_, _) -> (s, (CAErr (EDisconnected, true)))
      | _ -> (s, (CAErr (EInvalidPacket, true))))
   | None -> (s, (CAErr (EInvalidPacket, true)))
